@@ -319,3 +319,112 @@ Proof.
     rewrite (IH scan (pre ++ wenc_field (erec fnum e)) fuel fnum Hkk Hn Hall' Hlen'').
     cbn [tcons map fst snd]. rewrite Ee. f_equal. fold rest. rewrite !plen_app. lia.
 Qed.
+
+(* ------------------------------------------------------------------ Load(recurse=false) / Children of a node *)
+Lemma find_msg_in S name md : find_msg S name = Some md -> In md S.
+Proof. unfold find_msg. intros H. apply find_some in H. tauto. Qed.
+
+Lemma fuel_split (a b : nat) : (a <= b)%nat -> exists f, Datatypes.S b = (a + Datatypes.S f)%nat.
+Proof. intros. exists (b - a)%nat. lia. Qed.
+
+Lemma plen_len {A} (l : list A) : plen l = Z.of_nat (length l).
+Proof. reflexivity. Qed.
+
+Lemma encode_msg_len S md fs : fields_wf S md fs -> (length fs <= length (encode_msg fs))%nat.
+Proof.
+  intros H. induction H as [|[n v] fs [fd [_ [_ Hv]]] _ IH]; [cbn; lia|].
+  rewrite encode_msg_cons, app_length. cbn [length snd] in *.
+  destruct (wfld_fvals _ _ _ _ n Hv) as [E Hne]. destruct (fvals v) as [|w0 ws]; [contradiction|]. rewrite E. cbn [map].
+  rewrite wenc_cons, app_length. pose proof (wenc_field_plen_pos (n, w0)) as Hp. rewrite plen_len in Hp. lia.
+Qed.
+
+Theorem load_root_children S root m :
+  schema_packed_okb S = true -> wf_msg S root m = true ->
+  a_load all_fixes S false (root_node root (encode_msg m)) =
+  TOk (spec_children S LSingular (TMsg root) (VMsg m)) (plen (encode_msg m)).
+Proof.
+  intros Hpk Hwf. destruct (wf_msg_facts _ _ _ Hwf) as [md [Hfm [Hnd [_ Hfs]]]].
+  unfold a_load, root_node. cbn [an_t an_raw an_lbl an_ty an_num a_scan]. unfold scan_children.
+  change (K_MESSAGE =? K_MESSAGE) with true. cbn iota. rewrite Hfm.
+  destruct (fuel_split _ _ (encode_msg_len _ _ _ Hfs)) as [f Ef]. rewrite Ef.
+  assert (Hp : forallb field_packed_okb (md_fields md) = true).
+  { unfold schema_packed_okb in Hpk. rewrite forallb_forall in Hpk. apply Hpk. apply (find_msg_in _ _ _ Hfm). }
+  pose proof (scan_msg_fields S (a_scan (length (encode_msg m)) all_fixes S false) md m [] f Hfs Hnd Hp) as H.
+  cbn [app] in H. change (plen (@nil Z)) with 0 in H. rewrite !Z.add_0_l in H.
+  rewrite Z.add_0_l. rewrite H. unfold spec_children. rewrite Hfm. reflexivity.
+Qed.
+
+Lemma penc_len k xs : (length xs <= length (penc k xs))%nat.
+Proof. unfold penc. apply flat_map_length_ge. intros x. apply scalar_enc_cons. Qed.
+
+Lemma wenc_len w : (length w <= length (wenc w))%nat.
+Proof. unfold wenc. apply flat_map_length_ge. intros x. apply wenc_field_cons. Qed.
+
+(* a LIST node, as every lookup / listing returns it: all the records of the field *)
+Definition list_node (p : bool) (t : ftype) (num sz : Z) (v : pval) : anode :=
+  mk_anode T_LIST (wenc (wfld num v)) sz false (LRepeated p) t num.
+Definition map_node (kk : Z) (t : ftype) (num sz : Z) (v : pval) : anode :=
+  mk_anode T_MAP (wenc (wfld num v)) sz false (LMap kk) t num.
+
+Theorem load_list_children S p t num sz q vs :
+  p = type_numeric t -> 1 <= num <= MAX_FIELD_NUMBER ->
+  wf_fld S (LRepeated p) t (VList q vs) = true ->
+  plen (wenc (wfld num (VList q vs))) < 2 ^ 63 ->
+  a_load all_fixes S false (list_node p t num sz (VList q vs)) =
+  TOk (spec_children S (LRepeated p) t (VList q vs)) (plen (wenc (wfld num (VList q vs)))).
+Proof.
+  intros Hp Hn Hwf Hlen. destruct (wf_list_facts _ _ _ _ _ num Hwf) as [Hq [Hne [Hall Hshape]]].
+  unfold a_load, list_node. cbn [an_t an_raw an_lbl an_ty an_num a_scan spec_children]. unfold scan_children.
+  change (T_LIST =? K_MESSAGE) with false. change (T_LIST =? T_LIST) with true. cbn iota.
+  destruct q.
+  - destruct Hshape as [k [xs [Et [Hk [Evs [Hxs [Ew Hpl]]]]]]]. subst t vs. cbn [type_numeric]. rewrite Hk.
+    rewrite Ew in *. set (tg := tagb num 2). set (lenb := varint_enc (plen (penc k xs))).
+    assert (E0 : wenc [(num, WBytes (penc k xs))] = [] ++ tg ++ lenb ++ penc k xs).
+    { unfold wenc. cbn [flat_map]. rewrite app_nil_r, wenc_field_tagb. reflexivity. }
+    set (buf := wenc [(num, WBytes (penc k xs))]) in *.
+    assert (Hc : ctag buf 0 = Some (num, 2, plen tg)).
+    { rewrite E0. change 0 with (plen (@nil Z)). unfold tg. apply ctag_enc; [exact Hn|unfold wt_ok; auto]. }
+    rewrite Hc.
+    assert (Hbl : plen (penc k xs) <= plen buf).
+    { rewrite E0. cbn [app]. rewrite !plen_app. pose proof (plen_nonneg tg). pose proof (plen_nonneg lenb). lia. }
+    pose proof (plen_nonneg (penc k xs)) as Hpn.
+    assert (Hal : aread_length buf (0 + plen tg) = Some (plen (penc k xs), plen (tg ++ lenb))).
+    { unfold aread_length. rewrite Z.add_0_l. replace buf with (tg ++ lenb ++ penc k xs ++ []) by (rewrite E0, app_nil_r; reflexivity).
+      unfold lenb. rewrite cvar_enc by lia.
+      rewrite to_s64_small by (change (2 ^ 63) with 9223372036854775808 in Hlen; lia). fold lenb. rewrite !plen_app. reflexivity. }
+    rewrite Hal.
+    assert (Hfu : (length xs <= length buf)%nat).
+    { pose proof (penc_len k xs). rewrite !plen_len in Hbl. lia. }
+    destruct (fuel_split _ _ Hfu) as [f Ef]. rewrite Ef.
+    replace buf with ((tg ++ lenb) ++ penc k xs ++ []) by (rewrite E0, app_nil_r, <- app_assoc; reflexivity).
+    rewrite (scan_packed_run k xs _ (tg ++ lenb) [] f 0 (plen (penc k xs)) Hk Hxs).
+    f_equal. rewrite app_nil_r, !plen_app. lia.
+  - symmetry in Hq. rewrite <- Hp in Hq. assert (Hnn : type_numeric t = false) by (destruct p; [discriminate Hq|congruence]).
+    rewrite Hnn. rewrite Hshape in *.
+    assert (Hw : wf_wire (map (pair num) (map sval vs)) = true).
+    { destruct (wfld_fvals _ _ _ _ num Hwf) as [E _]. rewrite Hshape in E. rewrite E. apply map_pair_wf; [exact Hn|apply (fvals_wf _ _ _ _ Hwf)]. }
+    assert (Hfu : (length vs <= length (wenc (map (pair num) (map sval vs))))%nat).
+    { pose proof (wenc_len (map (pair num) (map sval vs))) as H. rewrite !map_length in H. exact H. }
+    destruct (fuel_split _ _ Hfu) as [f Ef]. rewrite Ef.
+    pose proof (scan_unpacked_run S t vs (a_scan (length (wenc (map (pair num) (map sval vs)))) all_fixes S false) [] f 0 num Hall Hw) as H.
+    cbn [app] in H. change (plen (@nil Z)) with 0 in H. rewrite Z.add_0_l in H. exact H.
+Qed.
+
+Theorem load_map_children S kk t num sz kvs :
+  (kk =? 9) || kind_is_int kk = true -> 1 <= num <= MAX_FIELD_NUMBER ->
+  wf_fld S (LMap kk) t (VMap kvs) = true ->
+  plen (wenc (wfld num (VMap kvs))) < 2 ^ 63 ->
+  a_load all_fixes S false (map_node kk t num sz (VMap kvs)) =
+  TOk (spec_children S (LMap kk) t (VMap kvs)) (plen (wenc (wfld num (VMap kvs)))).
+Proof.
+  intros Hkk Hn Hwf Hlen. destruct (wf_map_facts _ _ _ _ num Hwf) as [Hne [Ew Hall]].
+  unfold a_load, map_node. cbn [an_t an_raw an_lbl an_ty an_num a_scan spec_children]. unfold scan_children.
+  change (T_MAP =? K_MESSAGE) with false. change (T_MAP =? T_LIST) with false. change (T_MAP =? T_MAP) with true. cbn iota.
+  rewrite Ew in *.
+  assert (Hfu : (length kvs <= length (wenc (map (erec num) (map entry_of kvs))))%nat).
+  { pose proof (wenc_len (map (erec num) (map entry_of kvs))) as H. rewrite !map_length in H. exact H. }
+  destruct (fuel_split _ _ Hfu) as [f Ef]. rewrite Ef.
+  pose proof (scan_map_run S kk t kvs (a_scan (length (wenc (map (erec num) (map entry_of kvs)))) all_fixes S false) [] f num Hkk Hn Hall) as H.
+  cbn [app] in H. change (plen (@nil Z)) with 0 in H. rewrite Z.add_0_l in H. apply H.
+  change (2 ^ 63) with 9223372036854775808 in Hlen. exact Hlen.
+Qed.
